@@ -46,8 +46,12 @@ def install_pool_bc_all():
 
     install_engine_bc()
     mon = e1.sys.monitoring
-    codes = [rfg.worker_pool.__wrapped__.__code__, rfg.thread.__code__, rfg.worker_thread.__code__,
-             rfg.run_function_on_graph.__code__]
+    codes = [rfg.worker_pool.__wrapped__.__code__, rfg.worker_thread.__code__, rfg.run_function_on_graph.__code__]
+    if hasattr(rfg, "thread"):
+        codes.append(rfg.thread.__code__)
+    # nested helper closures of the coordinating thread (e.g. a shutdown callback), but not process_node
+    codes += [c for c in e1.nested_codes(rfg.run_function_on_graph.__code__)
+              if c.co_name not in ("process_node", "run_function_on_graph")]
     codes += [c for c in e1.nested_codes(rfg.worker_thread.__code__) if c.co_name == "process_items"]
     n = 0
     for c in codes:
